@@ -551,6 +551,8 @@ def check_c10(ctx):
     """no witness freedom: overrides everywhere (both wrappers, heavier share) + the gadget models"""
     from . import gadgets as G
     tally, rng = common(ctx)
+    if not ctx.quick and not ctx.replay:
+        core.tlaps_lemmas(ctx)      # unique canonical split, no wrap of grouped sums: production constants (TLAPS)
     n1 = pb_pipeline(ctx, tally, rng, 0.3 if ctx.quick else 0.6, 60 if ctx.quick else 1500)
     n2 = qb_pipeline(ctx, tally, rng, 0.3 if ctx.quick else 0.6, 60 if ctx.quick else 1500) if n1 is not None else None
     report(ctx, tally, "C10")
